@@ -24,6 +24,16 @@ CLAIMS = {
   "¬HasWith ∧ ¬KeepVarNames; every generated name passes isReserved, which consults all keywords and all undeclared variables; only renameScope writes identifier names and never the "
   "program scope, labels, property or import/export names; hoisted names are registered in intermediate scopes; the name alphabets are valid and duplicate-free.",
   OTHER_NOTE, "DESIGN.md §4 C02"),
+ "C06": ("other",
+  "token-switch exhaustiveness against the lexer's constants, write-on-all-paths rule on the CFG, reachability under the assumed option",
+  "Decides (R06.1-R06.3, DESIGN.md §4 C06): every XML token type except comments has a case that writes on all paths (only the empty CDATA section is skipped); with KeepWhitespace the tag-adjacent trim is unreachable, omitSpace is reset after start/end tags, and no whitespace-only text is singled out for dropping. "
+  "Entity/CDATA byte round trips and word joining across comments are not decided.",
+  OTHER_NOTE, "DESIGN.md §4 C06"),
+ "C07": ("other",
+  "finite-domain evaluation of the number guard over all 256 byte values, assignment-site enumeration, path rules with stipulated byte tests on the CFG",
+  "Decides (R07.1-R07.3, DESIGN.md §4 C07): only tokens starting with '-' or a digit enter the number rewrite and the token text is assigned nowhere else (strings, literals, punctuation are written byte-identical); KeepNumbers disables every rewrite; "
+  "the leading-zero repair (\"0\" before `.5`, \"-0\" and sign drop before `-.5`) lies on every path to the write. Numeric equality is C08's subject and not decided here.",
+  OTHER_NOTE, "DESIGN.md §4 C07"),
  "C10": ("other",
   "SSA provenance of the reader argument, error-edge return analysis, limit-guard domination on the CFG",
   "Decides two structural clauses (R10.1, R10.2, DESIGN.md §4 C10): the byte/string helpers return their own parameter on error and never hand its backing array to an in-place minifier; every documented resource limit "
